@@ -308,9 +308,9 @@ func (p *Peer) ReceiveParsed(m interface{}) ([][]byte, error) {
 // --- AKE -------------------------------------------------------------------
 
 func (p *Peer) onDHCommit(m *DHCommit) ([][]byte, error) {
-	if len(m.HashGx) != 32 {
-		return nil, reject("dhcommit-hash-len", "hash length %d", len(m.HashGx))
-	}
+	// A commit whose hash field is not 32 bytes long can never be opened (the
+	// check is made when the Reveal-Signature arrives); the specification does
+	// not ask for an earlier rejection, so it is answered like any other.
 	switch p.AuthState {
 	case AuthAwaitingRevealSig:
 		// Retransmit our DH-Key with the same g^y; remember the new commit.
